@@ -9,7 +9,7 @@ use std::f64::consts::PI;
 
 pub fn monitor() -> Monitor {
   Monitor { id: "C16",
-    rule: "(a) every cell of depths <= 7 (quick) / <= 9 (thorough) + class-sampled cells of every deeper depth: true largest centre-to-vertex distance (reference geometry) vs largest_center_to_vertex_distance at the centre and at 2 random interior positions of the cell; (b) cones (centre from the sphere/pole/seam/transition generators, radius 0.02..40 cell sizes capped at pi/2, and one cone in six with a radius in (0.3, pi] at depths 1..5, longitude outside [0,2pi) one time in eight): the *_with_radius bound (single and multi-depth forms) vs the true value of every cell whose centre is within the radius — cells found by hashing sample points of the cone (brute force over all cells for depth <= 5); (c) best_starting_depth: monotone, equal to a linear scan of the thresholds located by bisection, exact at the tabulated limits (read through the verification hook: r = limit -> shallower depth, one ulp below -> that depth, bisected threshold == limit), refusal of radii >= the depth-0 limit consistent with has_best_starting_depth, and containment of 96 boundary points of the cone in the centre cell + neighbours for radii at (1-{1e-12..0.3}) x threshold with centres aimed at seams, poles, transition latitude; plus, per depth, 6 witness cones built on the thinnest cell of the depth found by the reference geometry (width W): centre just outside one edge, radius W(1 +- {3e-4,3e-3,3e-2}) and the largest radius still answered with that depth (centre 1e-6 W outside), probe through the nearest point of the opposite edge. Non-trivial = cell on a base-cell border/corner, cone containing a pole or straddling the transition latitude / LAT_OF_SQUARE_CELL, radius within 5% of a threshold.",
+    rule: "(a) every cell of depths <= 7 (quick) / <= 9 (thorough) + class-sampled cells of every deeper depth: true largest centre-to-vertex distance (reference geometry) vs largest_center_to_vertex_distance at the centre, at 2 random interior positions and at 2 positions next to the border of the cell (the bound is for the cell containing the position, wherever the position lies in it); (b) cones (centre from the sphere/pole/seam/transition generators, radius 0.02..40 cell sizes capped at pi/2, and one cone in six with a radius in (0.3, pi] at depths 1..5, longitude outside [0,2pi) one time in eight): the *_with_radius bound (single and multi-depth forms) vs the true value of every cell whose centre is within the radius — cells found by hashing sample points of the cone (brute force over all cells for depth <= 5); (c) best_starting_depth: monotone, equal to a linear scan of the thresholds located by bisection, exact at the tabulated limits (read through the verification hook: r = limit -> shallower depth, one ulp below -> that depth, bisected threshold == limit), refusal of radii >= the depth-0 limit consistent with has_best_starting_depth, and containment of 96 boundary points of the cone in the centre cell + neighbours for radii at (1-{1e-12..0.3}) x threshold with centres aimed at seams, poles, transition latitude; plus, per depth, 6 witness cones built on the thinnest cell of the depth found by the reference geometry (width W): centre just outside one edge, radius W(1 +- {3e-4,3e-3,3e-2}) and the largest radius still answered with that depth (centre 1e-6 W outside), probe through the nearest point of the opposite edge. Non-trivial = cell on a base-cell border/corner, cone containing a pole or straddling the transition latitude / LAT_OF_SQUARE_CELL, radius within 5% of a threshold.",
     assumptions: &["reference cell geometry; Layer::hash (C01) and Layer::neighbours (C04) for the containment claim", "distances carry an absolute slack of 1e-15 rad and a relative one of 1e-12"],
     run, replay }
 }
@@ -48,8 +48,8 @@ pub fn judge_cell(ctx: &mut Ctx, depth: u8, h: u64, rng: &mut Rng) {
   let t = true_c2v(depth, h);
   ctx.worst_max("largest_true_centre_to_vertex_distance_x_nside", t * nside(depth) as f64);
   let layer = nested::get_or_create(depth);
-  for q in 0..3 {
-    let p = if q == 0 { ref_center(depth, h) } else { ref_sph_coo(depth, h, 0.02 + 0.96 * rng.f(), 0.02 + 0.96 * rng.f()) };
+  for q in 0..5 {
+    let p = match q { 0 => ref_center(depth, h), 1 | 2 => ref_sph_coo(depth, h, 0.02 + 0.96 * rng.f(), 0.02 + 0.96 * rng.f()), 3 => ref_sph_coo(depth, h, 0.003, 0.003 + 0.994 * rng.f()), _ => ref_sph_coo(depth, h, 0.003 + 0.994 * rng.f(), 0.997) };
     // the position must really be in that cell for the crate (C01): otherwise skip (border rounding)
     if q > 0 { if let Ok(hh) = catch(|| layer.hash(p.0, p.1)) { if hh != h { continue; } } }
     ctx.eval();
@@ -57,15 +57,10 @@ pub fn judge_cell(ctx: &mut Ctx, depth: u8, h: u64, rng: &mut Rng) {
     match catch(|| cdshealpix::largest_center_to_vertex_distance(depth, p.0, p.1)) {
       Err(e) => ctx.violation("largest_center_to_vertex_distance-panics", mk(), e),
       Ok(b) => {
-        // the claim quantifies over cells: the bound is evaluated at the cell centre. Off-centre positions of the same cell
-        // are recorded as information only (the envelope varies inside a coarse cell; the *_with_radius variants cover that use).
-        if q == 0 {
-          ctx.worst_max("true/bound(at centre)", t / b);
-          if !(t <= b * (1.0 + 1e-12) + 1e-15) { ctx.violation("bound-below-true-centre-to-vertex-distance", mk(), format!("true={:e} bound={:e} ratio={}", t, b, t / b)); }
-        } else {
-          ctx.worst_max("info:true/bound(off-centre position)", t / b);
-          if !(t <= b * (1.0 + 1e-12) + 1e-15) { ctx.info("bound-evaluated-off-centre-below-true-distance-of-the-containing-cell"); }
-        }
+        // "the cell at that position": the bound must hold for the cell containing the position, wherever the position is in that cell
+        // (centre, interior offsets, and 1e-3 cell inside each vertex)
+        ctx.worst_max(if q == 0 { "true/bound(at centre)" } else { "true/bound(any position of the cell)" }, t / b);
+        if !(t <= b * (1.0 + 1e-12) + 1e-15) { ctx.violation("bound-below-true-centre-to-vertex-distance", mk().s("cls", if q == 0 { "at-centre" } else { "off-centre" }), format!("true={:e} bound={:e} ratio={}", t, b, t / b)); }
       }
     }
   }
